@@ -58,19 +58,35 @@ func closeVictims() {
 	}
 }
 
-// drawSequence draws the 1-4 messages one peer sends.
+// drawSequence draws the 1-4 messages one peer sends: either independent messages, or (40%) a template in which each
+// message builds on what the previous ones did to the peer state (round step, then a claim, then bits for the claim …).
 func drawSequence(t *rapid.T, c *cctx) []wire {
-	n := weighted(t, "n", 20, 35, 30, 15) + 1
 	var ws []wire
+	prelude := func() wire {
+		// the peer first tells where it is: at or next to the height and round its messages are about
+		h := pick(t, "pre.h", c.fH, c.fH, c.fH, c.fH, c.fH, c.fH, c.fH, c.fH-1, c.fH+1, c.H)
+		r := pick(t, "pre.r", c.fR, c.fR, c.fR, c.fR, c.fR, c.fR, c.fR, c.fR-1, c.fR+1, c.R)
+		w := c.v.roundStepWire(h, r, pick(t, "pre.step", uint32(1), 2, 3, 4, 5, 6, 7, 8))
+		w.desc = "prelude"
+		return w
+	}
+	if weighted(t, "template", 60, 40) == 1 {
+		c.stick = 88
+		tp := templates[spread(t, "template.i", len(templates))]
+		ws = append(ws, prelude())
+		for _, k := range tp {
+			w := c.structuredType(t, k)
+			w.desc = "t:" + w.desc
+			ws = append(ws, w)
+		}
+		return ws
+	}
+	n := weighted(t, "n", 20, 35, 30, 15) + 1
 	for i := 0; i < n; i++ {
 		var w wire
 		kind := weighted(t, "kind", 50, 12, 18, 8, 6, 6)
 		if i == 0 && n > 1 && weighted(t, "prelude", 70, 30) == 0 {
-			// the peer first tells where it is: at or next to the victim's height and round
-			h := pick(t, "pre.h", c.fH, c.fH, c.fH, c.fH, c.fH, c.fH, c.fH, c.fH-1, c.fH+1, c.H)
-			r := pick(t, "pre.r", c.fR, c.fR, c.fR, c.fR, c.fR, c.fR, c.fR, c.fR-1, c.fR+1, c.R)
-			w = c.v.roundStepWire(h, r, pick(t, "pre.step", uint32(1), 2, 3, 4, 5, 6, 7, 8))
-			w.desc = "prelude"
+			w = prelude()
 		} else {
 			switch kind {
 			case 0:
@@ -136,6 +152,7 @@ func nilSubMessage(t *rapid.T) wire {
 }
 
 func descClass(d string) string {
+	d = strings.TrimPrefix(d, "t:")
 	if i := strings.IndexAny(d, "/:@"); i > 0 {
 		return d[:i]
 	}
